@@ -269,7 +269,24 @@ def check_axis_table(ctx):
         def raise_oracle(node):
             if node.ast is None or node.kind not in ("stmt", "test", "return"):
                 return None
-            for x in ast.walk(node.ast):
+            def evaluated(e):
+                """the operands of a test that are actually evaluated (short-circuit of and / or under the current valuation)"""
+                if isinstance(e, ast.BoolOp):
+                    for v_ in e.values:
+                        yield from evaluated(v_)
+                        try:
+                            val_ = eval_bool(v_, atom)
+                        except (_Crash, AnalysisError):
+                            return
+                        if (isinstance(e.op, ast.Or) and val_ is True) or (isinstance(e.op, ast.And) and val_ is False):
+                            return
+                elif isinstance(e, ast.UnaryOp) and isinstance(e.op, ast.Not):
+                    yield from evaluated(e.operand)
+                else:
+                    yield e
+
+            roots = list(evaluated(node.ast)) if node.kind == "test" and isinstance(node.ast, ast.expr) else [node.ast]
+            for x in (y for r_ in roots for y in ast.walk(r_)):
                 if isinstance(x, ast.Subscript) and isinstance(x.ctx, ast.Load) and norm(x.value) == memo and not bound:
                     return "KeyError"
                 if isinstance(x, ast.Call) and norm(x.func) == "eval" and nameerr:
